@@ -5,7 +5,7 @@ from sim.core import Violation, Inconclusive, InjectedAbort, RandomProxy, patche
 from sim.models import nested_variant_spec, rare_catastrophe_spec, gen_mdp_spec, MDPView, make_mdp, sibling_mdp_spec
 from sim.refsolve import optimal_values, evaluate
 from sim.heur import gen_heuristic, build_heuristic
-from sim.ctx import RunCtx, make_scheduler, gen_sched
+from sim.ctx import RunCtx, make_scheduler, gen_sched, construct
 from sim import shrink as shr
 
 PROP = 'C03'
@@ -34,6 +34,18 @@ def _size(rng):
     return dict(min_states=10, max_states=20, max_actions=4) if rng.random() < 0.04 else {}
 
 
+def _long_chain_spec(rng):
+    """A discounted chain of 120-180 states: LAO* needs more than 100 expansions (what its default inner-iteration count
+    happens to be) to close a solution."""
+    n = rng.randint(120, 180)
+    trans = []
+    for i in range(n):
+        trans.append([i, 0, [[i, 2, -1.0], [i + 1, 6, -1.0]]])
+        trans.append([i, 1, sorted([[max(0, i - 1), 4, -0.5], [i + 1, 4, -0.5]])])
+    trans.append([n, 0, [[n, 8, 0.0]]])
+    return dict(kind=rng.choice(('int', 'str', 'negint')), n=n, absorbing=[n], nA=2, gamma=0.95, trans=trans, init=[[0, 8]], proper=True)
+
+
 def preload():
     import msdm.algorithms.laostar  # noqa
 
@@ -54,6 +66,10 @@ def gen_case(rng, tier, idx):
         # a 1e-9 branch into a pit that costs 1e10 to leave: a successor can be nearly impossible and still decide the optimum
         spec = rare_catastrophe_spec(rng)
         cfg['reuse'] = None
+    if rng.random() < 0.003:
+        spec = _long_chain_spec(rng)
+        cfg.update(reuse=None, nest=None, cap_exact=False)
+        cfg['heur']['kind'] = rng.choice(('zero', 'const'))
     plain = idx % 4 == 0
     sched = gen_sched(rng, ('P',) if plain else ('P', 'X', 'X'), budget_choices=(None,), coop=False, cap=200000)
     return dict(spec=spec, cfg=cfg, sched=sched)
@@ -64,7 +80,7 @@ def execute(case, script=None):
     view = MDPView(case['spec'])
     ctx = RunCtx(PROP, view)
     ctx.declare_probes('listener_events', 'absorbing_initial_state', 'multi_initial',
-                       'undiscounted', 'tie_between_actions', 'nonzero_heuristic_at_absorbing', 'planner_reused', 'iteration_cap_exact', 'rerun_after_abort', 'nested_run')
+                       'undiscounted', 'tie_between_actions', 'nonzero_heuristic_at_absorbing', 'planner_reused', 'iteration_cap_exact', 'rerun_after_abort', 'nested_run', 'constructed_by_position', 'chain_of_more_than_100_states')
     sched = make_scheduler(case, script, ctx)
     try:
         return _execute(lao, view, case['cfg'], ctx, sched)
@@ -81,6 +97,8 @@ def _execute(lao, view, cfg, ctx, sched):
         ctx.probe('nonzero_heuristic_at_absorbing')
     if view.gamma == 1.0:
         ctx.probe('undiscounted')
+    if view.n > 100:
+        ctx.probe('chain_of_more_than_100_states')
     if len(view.init) > 1:
         ctx.probe('multi_initial')
     if any(s in view.absorbing for s in view.init):
@@ -124,8 +142,11 @@ def _execute(lao, view, cfg, ctx, sched):
     proxy = RandomProxy(sched)
     with patched_random([lao], proxy):
         try:
-            planner = lao.LAOStar(heuristic=lambda s: htab[sid[s]], seed=cfg['seed'], randomize_action_order=cfg['rao'],
-                                  randomize_nextstate_order=cfg['rno'], max_lao_star_iterations=10000, event_listener_class=L)
+            positional = (len(view.spec['trans']) + view.n) % 3 == 0 or view.n > 100          # a third of the planners (and those of the long chains) are built by position
+            if positional:
+                ctx.probe('constructed_by_position')
+            planner = construct(lao.LAOStar, 'LAOStar', dict(heuristic=lambda s: htab[sid[s]], seed=cfg['seed'], randomize_action_order=cfg['rao'],
+                                randomize_nextstate_order=cfg['rno'], max_lao_star_iterations=10000, event_listener_class=L), positional)
             sib = sibling_mdp_spec(view.spec, cfg['reuse']) if cfg.get('reuse') is not None else None
             if sib is not None and cfg['reuse'] % 2 == 1:
                 # fault F6: a first run on the SAME problem and objects is aborted by an exception thrown from a model call-back
